@@ -96,6 +96,17 @@ CHECKS = {
         "Trusts the reference geometry in props/c15.py and vlib/ratelaw.py. get_neighbors is compared as a "
         "set of distinct cells (multiplicities are checked physically through engine and kinetics). "
         "Python kinetics on the graph only without periodic axes of length 2 (stated restriction)."),
+    "C17": (
+        "Hypothesis generation of trajectories from known arrays; direct-indexing oracle and exact "
+        "reference look-up",
+        "Exploration. Trajectories are constructed directly from arrays whose entries encode (sample, "
+        "species, cell); every triple is read through every accessor and compared with direct indexing "
+        "(and units); get_sample_index is compared with a reference look-up evaluated in Fractions for "
+        "query times before / on / between / exactly mid-way / after the samples, in the trajectory's unit "
+        "or another one, as UnitValue, string or number; the accessor identities are re-checked on "
+        "trajectories produced by the three engines.",
+        "Sample times strictly increasing. Queries converted from another unit are kept 1e-9 away from "
+        "samples and mid-points (skipped and counted otherwise)."),
 }
 
 NOT_BUILT = "check not built yet in this working session (planned; DESIGN.md section 4)"
